@@ -6,9 +6,12 @@ FIELD_GLOBALS
 inline unsigned numeric_cast_unsigned(unsigned x) { return x; }
 #include "fd.inc"
 extern "C" fe_t fpow(fe_t b, unsigned e) { fe_t r = 1; for (unsigned i = 0; i < LEN; i++) if (i < e) r = T_MUL[r][b]; return r; }
-extern "C" void h_fdiff(void)
+static void one_call(bool first);
+extern "C" void h_fdiff(void) { field_init(); one_call(true); REACHABLE("h_fdiff"); }
+/* the function is a pure function of its arguments: a second call of the same shape, after an arbitrary first one, is judged alone */
+extern "C" void h_fdiff_second_call(void) { field_init(); one_call(true); one_call(false); REACHABLE("h_fdiff_second_call"); }
+static void one_call(bool first)
 {
-  field_init();
   const unsigned len = LEN, md = MD;
   fe_t g[LEN], c = nondet_fe();
   vec_basic grid(len);
@@ -25,5 +28,4 @@ extern "C" void h_fdiff(void)
       for (unsigned i = 0; i < LEN; i++) { OBL("C38.fdiff.post.every_weight_is_set", w.d[i + k * LEN].nn); s = T_ADD[s][T_MUL[FVAL(w.d[i + k * LEN])][fpow(T_SUB[g[i]][c], m)]]; }
       OBL("C38.fdiff.post.order_k_weights_differentiate_the_monomial_basis_exactly", s == (m == k ? FACT[k] : 0));
     }
-  REACHABLE("h_fdiff");
 }
